@@ -15,7 +15,7 @@ import warnings
 import common
 
 RULE = ("cases are (operation, family, size): operations fromdict, asdict, asdict_simplified, migration_matrices, in_generations, "
-        "to_ms, dumps(yaml, simplified), dumps(json, resolved), discrete_demographic_events; families islands (clique, one rate), star and clique with rates that change once, ring, "
+        "to_ms, dumps(yaml, simplified), dumps(json, resolved), discrete_demographic_events; families islands (clique, one rate), star and clique with rates that change once, chains and fans of same-time pulses, ring, "
         "path, star (one shared rate), ring with distinct rates, ancestry chain, admixture ladder, dense ancestry, many epochs, many pulses, two-rate clique-with-holes, "
         "binary split tree; sizes 2..12 step 2 (every family), 16, 24, 32 where the count stays under the budget; non-trivial = size "
         ">= 6; distinct by triple")
@@ -115,6 +115,17 @@ def families():
             ds.append(d)
         return dict(time_units="generations", demes=ds)
 
+    def pulse_chain(n):
+        # pulses d0 -> d1 -> d2 -> ... all at one time
+        return dict(time_units="generations", demes=demes_n(n),
+                    pulses=[dict(sources=["d%d" % i], dest="d%d" % (i + 1), time=10, proportions=[0.01]) for i in range(n - 1)])
+
+    def pulse_fan(n):
+        # many pulses into one deme and out of one deme at one time
+        return dict(time_units="generations", demes=demes_n(n),
+                    pulses=[dict(sources=["d0"], dest="d%d" % i, time=10, proportions=[0.01]) for i in range(1, n)]
+                    + [dict(sources=["d%d" % i], dest="d0", time=20, proportions=[0.5 / n]) for i in range(1, n)])
+
     def star_two_periods(n):
         # every spoke sends migrants to the hub in two periods with different rates; the per-period totals are valid
         # (0.6 and 0.5) but the rates summed over all time exceed 1
@@ -134,7 +145,7 @@ def families():
                            dict(source="d%d" % i, dest="d%d" % j, rate=0.5 / max(n - 1, 1), start_time=50)]
         return dict(time_units="generations", demes=demes_n(n), migrations=ms)
 
-    return {"star-two-periods": star_two_periods, "clique-two-periods": clique_two_periods, "ladder": ladder, "dense-ancestry": dense_ancestry, "islands": islands, "ring": ring, "ring-distinct": lambda n: ring(n, True), "path": path, "star": star,
+    return {"pulse-chain-same-time": pulse_chain, "pulse-fan-same-time": pulse_fan, "star-two-periods": star_two_periods, "clique-two-periods": clique_two_periods, "ladder": ladder, "dense-ancestry": dense_ancestry, "islands": islands, "ring": ring, "ring-distinct": lambda n: ring(n, True), "path": path, "star": star,
             "chain": chain, "epochs": epochs, "pulses": pulses, "holes": holes, "tree": tree}
 
 
